@@ -16,7 +16,7 @@ func init() {
 		Pkgs:      []string{"container/iterable"},
 		Run:       runC10,
 		Technique: "static analysis: result-use (contradiction) rule, guard dominance and must-pass-through path queries on go/ssa of container/iterable",
-		Explanation: "R1: the result of the node unlink routine ('new head or nil') reaches, at every call site, a nil-test whose non-nil edge stores it into the map's head field. " +
+		Explanation: "R1: the result of the node unlink routine ('new head or nil') reaches, at every call site, a nil-test whose non-nil edge stores it into the map's head field (when the routine reports (head, changed) instead, the store sits on the true edge of that flag, and R9 also decides that the flag is true exactly together with the successor and false together with nil). " +
 			"R2: a node is handed back to the pool only on an edge where its reference count is tested to be zero (or <=0) and after the unlink routine was applied to it on every path. " +
 			"R3: Add pairs the list append with the index store, Remove pairs the unlink with the index delete. " +
 			"R4: Iterator() increments the reference count of the node it starts from and stores that node in the iterator; Close() calls the release routine exactly once and clears the pointer. " +
@@ -79,12 +79,14 @@ func (r *mapRoles) isLink(f *types.Var) bool {
 	return false
 }
 
-// payloadFields are the fields of the node whose type is a type parameter (key and value).
+// payloadFields are the fields of the node that hold the entry: a field whose type is a type parameter (key, value), or a
+// struct held by value that has such fields (the entry kept as one value).
 func (r *mapRoles) payloadFields() []*types.Var {
-	return fieldsWhere(r.node, func(f *types.Var) bool {
-		_, isTP := f.Type().(*types.TypeParam)
-		return isTP
-	})
+	var res []*types.Var
+	for _, l := range r.payloadLeavesD() {
+		res = appendUniq(res, l.path[0])
+	}
+	return res
 }
 
 func (r *mapRoles) isPayload(f *types.Var) bool {
@@ -189,7 +191,9 @@ func resolveMapRoles(c *Ctx) *mapRoles {
 		c.Fatalf("role node: element type of the index is not a pointer to a named type")
 	}
 	c.Role("map.node", r.node.Obj().Name(), r.node.Obj().Pos())
-	r.pool = c.oneField("map.pool", r.Map, func(f *types.Var) bool { return ir.IsNamed(f.Type(), "sync", "Pool") })
+	// the recycling pool: the sync.Pool the map holds by value - directly, or inside a typed wrapper struct of this package
+	// (a pool of nodes with get/put methods); the recycle events themselves are the (*sync.Pool).Put calls (R2)
+	r.pool = c.oneFieldDeep("map.pool", r.Map, func(f *types.Var) bool { return ir.IsNamed(f.Type(), "sync", "Pool") })
 	r.iterFn = c.RequireFn(c.P.MethodOf(r.Map, "Iterator"), "Map.Iterator")
 	r.addFn = c.RequireFn(c.P.MethodOf(r.Map, "Add"), "Map.Add")
 	r.remFn = c.RequireFn(c.P.MethodOf(r.Map, "Remove"), "Map.Remove")
@@ -438,12 +442,11 @@ func (r *mapRoles) isFill(fn *ssa.Function, in ssa.Instruction) bool {
 	if !ok {
 		return false
 	}
-	fa, ok := st.Addr.(*ssa.FieldAddr)
-	if !ok || !r.isPayload(ir.FieldOf(fa)) || namedOf(fa.X.Type()) != r.node {
+	_, path, ok := r.nodeFieldPathD(st.Addr)
+	if !ok || !r.isPayload(path[0]) {
 		return false
 	}
-	prm, isP := ir.Resolve(st.Val).(*ssa.Parameter)
-	return isP && prm.Parent() == fn
+	return madeOfParamsD(fn, st.Val, 0)
 }
 
 func appendUniq(s []*types.Var, f *types.Var) []*types.Var {
@@ -488,28 +491,7 @@ func headPropagation(c *Ctx, rule string, r *mapRoles) {
 				c.Decide(rule, fn, "unlink-result->head", call, ok, detail)
 				continue
 			}
-			ok := false
-			detail := "the result of the unlink routine (new head or nil) is discarded"
-			if refs := call.Referrers(); refs != nil && len(*refs) > 0 {
-				detail = "the result is not stored into the head field on its non-nil edge"
-				for _, ref := range *refs {
-					if s, isStore := ref.(*ssa.Store); isStore && s.Val == ssa.Value(call) {
-						if _, isHead := fieldAddrOf(s.Addr, r.head); isHead {
-							// stored under the guard "result != nil"
-							if hasFactCmp(s.Block(), func(cm ir.Cmp) bool {
-								return cm.Op == token.NEQ && ((cm.X == ssa.Value(call) && ir.IsNilConst(cm.Y)) || (cm.Y == ssa.Value(call) && ir.IsNilConst(cm.X)))
-							}) {
-								ok = true
-							} else {
-								detail = "the result is stored into the head field without the nil test (nil means: head unchanged)"
-							}
-						}
-					}
-				}
-				// the non-nil test must cover every path: from the call, no path to an exit that passes the
-				// non-nil edge without the store is possible by construction (store is in the guarded block);
-				// additionally require that the guarded store is reached on the non-nil edge directly
-			}
+			ok, detail := r.headResultStoredD(call)
 			c.Decide(rule, fn, "unlink-result->head", call, ok, detail)
 		}
 	}
@@ -767,7 +749,11 @@ func mapRules(c *Ctx, pfx string) {
 	if !r.unlinkOwnsHead {
 		for _, ret := range ir.Returns(r.unlink) {
 			ok := true
-			for _, o := range phiClosure(ir.Resolve(ret.Results[0])) {
+			hi, _ := r.unlinkResultIdxD()
+			if hi < 0 || hi >= len(ret.Results) {
+				continue
+			}
+			for _, o := range phiClosure(ir.Resolve(ret.Results[hi])) {
 				if ir.IsNilConst(o) {
 					continue
 				}
@@ -777,6 +763,7 @@ func mapRules(c *Ctx, pfx string) {
 			}
 			c.Decide(pfx+"9", r.unlink, "new head is nil or the unlinked node's successor", ret, ok, "the unlink routine reports another node than its own successor as new head: the skipped node stays linked without predecessor while head points past it, a later unlink of the head goes through the middle branch and head dangles")
 		}
+		c.unlinkFlagAgreesD(r, pfx+"9", isSuccessor)
 	} else {
 		subj := unlinked
 		ir.Instrs(r.unlink, func(in ssa.Instruction) {
@@ -1160,8 +1147,7 @@ func (c *Ctx) payloadAndCursorDiscipline(r *mapRoles, ruleRead, ruleCursor strin
 	// live-cursor routines: Map methods (node) -> node
 	live := map[*ssa.Function]bool{}
 	for _, m := range c.P.MethodsOf(r.Map) {
-		ps, rs := sigOf(m)
-		if len(ps) == 1 && namedOf(ps[0]) == r.node && len(rs) == 1 && namedOf(rs[0]) == r.node {
+		if r.liveResultIdxD(m) >= 0 {
 			live[m] = true
 		}
 	}
@@ -1169,18 +1155,7 @@ func (c *Ctx) payloadAndCursorDiscipline(r *mapRoles, ruleRead, ruleCursor strin
 	for m := range live {
 		cursorRoutine[m] = true
 	}
-	payload := fieldsWhere(r.node, func(f *types.Var) bool {
-		_, isTP := f.Type().(*types.TypeParam)
-		return isTP
-	})
-	isPayload := func(f *types.Var) bool {
-		for _, p := range payload {
-			if p == f {
-				return true
-			}
-		}
-		return false
-	}
+	leaves := r.payloadLeavesD()
 	// notDeleted decodes a comparison that is known to hold as "the state of node n is not the removed mark".
 	notDeleted := func(cm ir.Cmp) (ssa.Value, bool) {
 		if !r.hasDeleted {
@@ -1232,6 +1207,11 @@ func (c *Ctx) payloadAndCursorDiscipline(r *mapRoles, ruleRead, ruleCursor strin
 			if lk, ok := x.Tuple.(*ssa.Lookup); ok {
 				_, isIdx := loadOfField(lk.X, r.vals)
 				return isIdx
+			}
+			// the node result of a live-cursor routine that reports more than the node ("node, has := settle(cursor)")
+			if call, ok := x.Tuple.(*ssa.Call); ok {
+				cal := ir.StaticCallee(call)
+				return live[cal] && x.Index == r.liveResultIdxD(cal)
 			}
 		case *ssa.Lookup:
 			_, isIdx := loadOfField(x.X, r.vals)
@@ -1371,10 +1351,20 @@ func (c *Ctx) payloadAndCursorDiscipline(r *mapRoles, ruleRead, ruleCursor strin
 		ir.Instrs(fn, func(in ssa.Instruction) {
 			// R6: payload reads
 			if u, ok := in.(*ssa.UnOp); ok && u.Op == token.MUL {
-				if fa, ok := u.X.(*ssa.FieldAddr); ok && isPayload(ir.FieldOf(fa)) && namedOf(fa.X.Type()) == r.node {
-					nReads++
-					c.Decide(ruleRead, fn, "payload read from a live node", in, liveNode(fn, ir.Facts(in.Block()), fa.X, 0),
-						"an entry's key/value is read from a node that was obtained neither through the index nor through the skip-removed routine: it can be a removed entry")
+				if base, path, ok := r.nodeFieldPathD(u.X); ok && r.isPayload(path[0]) {
+					// one obligation per payload value (key, value) the load reads: a load of the whole entry reads both
+					isLive, decided := false, false
+					for _, l := range leaves {
+						if !l.under(path) {
+							continue
+						}
+						if !decided {
+							isLive, decided = liveNode(fn, ir.Facts(in.Block()), base, 0), true
+						}
+						nReads++
+						c.Decide(ruleRead, fn, "payload read from a live node", in, isLive,
+							"an entry's key/value is read from a node that was obtained neither through the index nor through the skip-removed routine: it can be a removed entry")
+					}
 				}
 			}
 			// R7: cursor routines receive only cursors
@@ -1432,6 +1422,11 @@ func (c *Ctx) payloadAndCursorDiscipline(r *mapRoles, ruleRead, ruleCursor strin
 						}
 					case *ssa.Call:
 						return live[ir.StaticCallee(a)]
+					case *ssa.Extract:
+						if mk, isCall := a.Tuple.(*ssa.Call); isCall {
+							cal := ir.StaticCallee(mk)
+							return live[cal] && a.Index == r.liveResultIdxD(cal)
+						}
 					}
 					return false
 				}
@@ -1527,31 +1522,31 @@ func (c *Ctx) unlinkClearsPayload(r *mapRoles, rule string) {
 		c.Fatalf("role unlink routine not resolved")
 	}
 	recv := fn.Params[r.unlinkSubj]
-	payload := fieldsWhere(r.node, func(f *types.Var) bool {
-		_, isTP := f.Type().(*types.TypeParam)
-		return isTP
-	})
+	// the payload values of the node: key and value, as loose fields of the node or inside an entry struct it holds by value
+	payload := r.payloadLeavesD()
 	if len(payload) < 2 {
 		c.R.Errorf("%s: the node type has %d payload (type-parameter) fields, expected key and value", rule, len(payload))
 	}
 	isZero := func(v ssa.Value) bool { return zeroValued(v, 0) }
+	// the stores into the node (any field, also a field of a struct the node holds by value)
 	var mutations []ssa.Instruction
 	ir.Instrs(fn, func(in ssa.Instruction) {
 		if st, ok := in.(*ssa.Store); ok {
-			if fa, ok := st.Addr.(*ssa.FieldAddr); ok && namedOf(fa.X.Type()) == r.node && same(ir.Resolve(fa.X), recv) {
+			if base, _, ok := r.nodeFieldPathD(st.Addr); ok && same(ir.Resolve(base), recv) {
 				mutations = append(mutations, in)
 			}
 		}
 	})
 	for _, p := range payload {
 		p := p
+		// the value is overwritten with zero: itself, or a struct around it as a whole
 		zeroStore := func(x ssa.Instruction) bool {
 			st, ok := x.(*ssa.Store)
 			if !ok {
 				return false
 			}
-			fa, ok := st.Addr.(*ssa.FieldAddr)
-			return ok && ir.FieldOf(fa) == p && same(ir.Resolve(fa.X), recv) && isZero(st.Val)
+			base, path, ok := r.nodeFieldPathD(st.Addr)
+			return ok && p.under(path) && same(ir.Resolve(base), recv) && isZero(st.Val)
 		}
 		bad := ""
 		var at ssa.Instruction
@@ -1562,7 +1557,7 @@ func (c *Ctx) unlinkClearsPayload(r *mapRoles, rule string) {
 			before, e1 := (ir.Query{Fn: fn, Block: zeroStore, Target: func(x ssa.Instruction) bool { return x == m }}).Find()
 			after, e2 := (ir.Query{Fn: fn, From: m, Block: zeroStore, Target: ir.IsExit}).Find()
 			if e1 != nil || e2 != nil {
-				c.Undecided(rule, fn, "unlink clears "+p.Name(), m, "path query exceeded its bound")
+				c.Undecided(rule, fn, "unlink clears "+p.last().Name(), m, "path query exceeded its bound")
 				return
 			}
 			if before != nil && after != nil {
@@ -1571,8 +1566,8 @@ func (c *Ctx) unlinkClearsPayload(r *mapRoles, rule string) {
 				break
 			}
 		}
-		c.Decide(rule, fn, "unlink zeroes the node's payload field of type "+p.Type().String(), at, bad == "",
-			"the unlink routine changes the node on a path that never overwrites its "+p.Type().String()+"-typed payload field with the zero value: the removed entry stays reachable through the recycled node after all iterators were closed (and First()/Next() at the end of the list report a removed key): "+bad)
+		c.Decide(rule, fn, "unlink zeroes the node's payload field of type "+p.last().Type().String(), at, bad == "",
+			"the unlink routine changes the node on a path that never overwrites its "+p.last().Type().String()+"-typed payload field with the zero value: the removed entry stays reachable through the recycled node after all iterators were closed (and First()/Next() at the end of the list report a removed key): "+bad)
 	}
 }
 
@@ -1736,6 +1731,14 @@ func (c *Ctx) unlinkSurgery(r *mapRoles, rule string) {
 			}
 			w, err := (ir.Query{Fn: fn, From: ns.st, Block: isOther, BlockEdge: noOther, Target: ir.IsExit}).Find()
 			paired = err == nil && w == nil
+			if !paired {
+				// ... or the other side was settled on every way that leads here: each path from the entry to this store has
+				// rewired the other neighbour or has taken an edge on which the node is known to have none there (the path
+				// form of "a store on the other side dominates this one": the two sides may sit in the two arms of one test
+				// with the common part written once behind them)
+				w, err = (ir.Query{Fn: fn, Block: isOther, BlockEdge: noOther, Target: func(x ssa.Instruction) bool { return x == ssa.Instruction(ns.st) }}).Find()
+				paired = err == nil && w == nil
+			}
 		}
 		c.Decide(rule, fn, "both neighbours are rewired", ns.st, paired,
 			"the unlink routine rewires the neighbour on one side and can leave without rewiring the one on the other side: that neighbour keeps pointing at the unlinked node")
